@@ -289,6 +289,30 @@ Proof.
   - exists 8%nat. split; vm_compute; reflexivity.
 Qed.
 
+(* ------------------------------------------------------------------ oneOf [X, null] -> Option<X> (maybe_option)
+   (corpus/convert/option_union_example.json; T_opt is the REAL type space): a "$ref" arm, an externally tagged
+   enum as the arm of an optional member, recursion through Option<Vec<Rec>> *)
+Definition D_opt : defs := [([76; 101; 97; 102]%N, (SObj (Some [TObject]) None None None (mkNumv None None None None None) (mkStrv None None None) ItemsAbsent (@nil schema) None None None false [([118]%N, (SObj (Some [TInteger]) None None None (mkNumv None None None None None) (mkStrv None None None) ItemsAbsent (@nil schema) None None None false (@nil (ustring * schema)) (@nil ustring) None None None None None None None None None None))] [[118]%N] None None None None None None None None None None)); ([77; 97; 121; 98; 101]%N, (SObj None None None None (mkNumv None None None None None) (mkStrv None None None) ItemsAbsent (@nil schema) None None None false (@nil (ustring * schema)) (@nil ustring) None None None None None (Some [(SObj None None None None (mkNumv None None None None None) (mkStrv None None None) ItemsAbsent (@nil schema) None None None false (@nil (ustring * schema)) (@nil ustring) None None None None None None None (Some [76; 101; 97; 102]%N) None None); (SObj (Some [TNull]) None None None (mkNumv None None None None None) (mkStrv None None None) ItemsAbsent (@nil schema) None None None false (@nil (ustring * schema)) (@nil ustring) None None None None None None None None None None)]) None None None None)); ([82; 101; 99]%N, (SObj (Some [TObject]) None None None (mkNumv None None None None None) (mkStrv None None None) ItemsAbsent (@nil schema) None None None false [([107; 105; 110; 100]%N, (SObj None None None None (mkNumv None None None None None) (mkStrv None None None) ItemsAbsent (@nil schema) None None None false (@nil (ustring * schema)) (@nil ustring) None None None None None (Some [(SObj (Some [TNull]) None None None (mkNumv None None None None None) (mkStrv None None None) ItemsAbsent (@nil schema) None None None false (@nil (ustring * schema)) (@nil ustring) None None None None None None None None None None); (SObj None None None None (mkNumv None None None None None) (mkStrv None None None) ItemsAbsent (@nil schema) None None None false (@nil (ustring * schema)) (@nil ustring) None None None None None (Some [(SObj (Some [TString]) None (Some [(JStr [97]%N); (JStr [98]%N)]) None (mkNumv None None None None None) (mkStrv None None None) ItemsAbsent (@nil schema) None None None false (@nil (ustring * schema)) (@nil ustring) None None None None None None None None None None); (SObj (Some [TObject]) None None None (mkNumv None None None None None) (mkStrv None None None) ItemsAbsent (@nil schema) None None None false [([110]%N, (SObj (Some [TInteger]) None None None (mkNumv None None None None None) (mkStrv None None None) ItemsAbsent (@nil schema) None None None false (@nil (ustring * schema)) (@nil ustring) None None None None None None None None None None))] [[110]%N] (Some (SBool false)) None None None None None None None None None)]) None None None None)]) None None None None)); ([109]%N, (SObj None None None None (mkNumv None None None None None) (mkStrv None None None) ItemsAbsent (@nil schema) None None None false (@nil (ustring * schema)) (@nil ustring) None None None None None None None (Some [77; 97; 121; 98; 101]%N) None None)); ([110; 101; 120; 116]%N, (SObj None None None None (mkNumv None None None None None) (mkStrv None None None) ItemsAbsent (@nil schema) None None None false (@nil (ustring * schema)) (@nil ustring) None None None None None (Some [(SObj (Some [TArray]) None None None (mkNumv None None None None None) (mkStrv None None None) ItemsSingle [(SObj None None None None (mkNumv None None None None None) (mkStrv None None None) ItemsAbsent (@nil schema) None None None false (@nil (ustring * schema)) (@nil ustring) None None None None None None None (Some [82; 101; 99]%N) None None)] None None None false (@nil (ustring * schema)) (@nil ustring) None None None None None None None None None None); (SObj (Some [TNull]) None None None (mkNumv None None None None None) (mkStrv None None None) ItemsAbsent (@nil schema) None None None false (@nil (ustring * schema)) (@nil ustring) None None None None None None None None None None)]) None None None None))] [[109]%N] None None None None None None None None None None))].
+Definition T_opt : space := (mkSpace [(1%N, (mkEntry (DStruct [76; 101; 97; 102]%N None [(mkProp [118]%N RNone PRequired 4%N)] false) (@nil ustring))); (2%N, (mkEntry (DNewtype [77; 97; 121; 98; 101]%N None 5%N CNone) (@nil ustring))); (3%N, (mkEntry (DStruct [82; 101; 99]%N None [(mkProp [107; 105; 110; 100]%N RNone POptional 7%N); (mkProp [109]%N RNone PRequired 2%N); (mkProp [110; 101; 120; 116]%N RNone POptional 9%N)] false) (@nil ustring))); (4%N, (mkEntry (DInteger [105; 54; 52]%N) (@nil ustring))); (5%N, (mkEntry (DOption 1%N) (@nil ustring))); (6%N, (mkEntry (DEnum [82; 101; 99; 75; 105; 110; 100]%N None TagExternal [(mkVariant [97]%N [65]%N VSimple); (mkVariant [98]%N [66]%N VSimple); (mkVariant [110]%N [78]%N (VItem 4%N))] false (@nil bespoke)) (@nil ustring))); (7%N, (mkEntry (DOption 6%N) (@nil ustring))); (8%N, (mkEntry (DVec 3%N) (@nil ustring))); (9%N, (mkEntry (DOption 8%N) (@nil ustring)))] 10%N (mkSettings None (@nil ustring) false [58; 58; 32; 115; 116; 100; 32; 58; 58; 32; 99; 111; 108; 108; 101; 99; 116; 105; 111; 110; 115; 32; 58; 58; 32; 72; 97; 115; 104; 77; 97; 112]%N) false false false false (@nil ustring)).
+Definition v_opt : json := (JObj [([107; 105; 110; 100]%N, (JObj [([110]%N, (JInt (3)%Z))])); ([109]%N, JNull); ([110; 101; 120; 116]%N, (JArr [(JObj [([107; 105; 110; 100]%N, (JStr [97]%N)); ([109]%N, (JObj [([118]%N, (JInt (1)%Z))]))]); (JObj [([109]%N, JNull); ([110; 101; 120; 116]%N, JNull)])]))]).
+
+Example C02F_opt_in_frag : in_frag Sanitize.ascii_classes D_opt = true.
+Proof. vm_compute. reflexivity. Qed.
+
+Example C02F_opt_convert : convert_doc Sanitize.ascii_classes D_opt = Some T_opt.
+Proof. vm_compute. reflexivity. Qed.
+
+Example C02F_opt_accepted : exists f, de no_re no_re T_opt f 3%N v_opt <> None.
+Proof.
+  apply (C02F_fragment_sound Sanitize.ascii_classes no_re no_re no_re D_opt T_opt) with (r := [82; 101; 99]%N).
+  - intros f n s _ H. discriminate H.
+  - exact C02F_opt_in_frag.
+  - exact C02F_opt_convert.
+  - vm_compute. right. right. left. reflexivity.
+  - vm_compute. reflexivity.
+  - exists 12%nat. split; vm_compute; reflexivity.
+Qed.
+
 (* a by-value cycle (needs a Box from break_cycles) is outside the fragment *)
 Example C02F_cycle_out : in_frag Sanitize.ascii_classes D_cycle = false.
 Proof. vm_compute. reflexivity. Qed.
